@@ -560,3 +560,26 @@ Print Assumptions c10_code_must_close.
 Theorem c10_code_must_close_iff : forall rs, gen_must_close rs = true <-> rs <> [].
 Proof. exact gen_must_close_iff. Qed.
 Print Assumptions c10_code_must_close_iff.
+
+(* ================================================================== the vector behind the list (translated from the source) *)
+(** src/util.rs ArrayVec::push / truncate / deref are translated as well (theories/Gen2.v: len and arr as the two fields, a store by
+    index that panics out of bounds).  On the visible part arr[..len] the code's push appends, keeps the capacity, and panics exactly
+    when the vector is full: the model's [push_reason] on a vector of capacity CLOSE_REASON_CAP (proofs/Gen2_equiv_arrayvec.v). *)
+From Hoot.proofs Require Import Gen2_equiv_arrayvec.
+Theorem c10_code_arrayvec_push : forall n (arr : list reason) r,
+  len arr = CLOSE_REASON_CAP -> n <= len arr ->
+  match push_reason (gen_arrayvec_deref reason n arr) r with
+  | Ok rs' => exists arr', gen_arrayvec_push reason n arr r = Ok (n + 1, arr', tt) /\ len arr' = len arr /\
+                           gen_arrayvec_deref reason (n + 1) arr' = rs'
+  | Panic _ => exists site, gen_arrayvec_push reason n arr r = Panic site
+  | Err _ => False
+  end.
+Proof. exact gen_arrayvec_push_is_push_reason. Qed.
+Print Assumptions c10_code_arrayvec_push.
+Theorem c10_code_arrayvec_push_any : forall T n arr v,
+  n < len arr ->
+  exists arr', gen_arrayvec_push T n arr v = Ok (n + 1, arr', tt) /\
+               len arr' = len arr /\
+               gen_arrayvec_deref T (n + 1) arr' = gen_arrayvec_deref T n arr ++ [v].
+Proof. exact gen_arrayvec_push_ok. Qed.
+Print Assumptions c10_code_arrayvec_push_any.
